@@ -228,6 +228,50 @@ def multi_scenario(api, n, loss, T):
                 pass
 
 
+def failed_kexinit_scenario(api, T):
+    """The KEXINIT of a re-exchange cannot be written (socket dead for writing, reader not yet aware); a call
+    made in that window blocks on the send gate; then the transport is closed: the call must return."""
+    tc = ts = None
+    try:
+        tc, ts, sc, ss, srv = lib_net.make_pair()
+        chan = tc.open_session(timeout=15)
+        schan = ts.accept(5)
+        if schan is None:
+            raise RuntimeError("server did not accept the channel")
+        sc.break_writes()
+        try:
+            tc.renegotiate_keys()
+        except BaseException:  # noqa - the write failure is expected to surface here
+            pass
+        res = {}
+
+        def runner():
+            try:
+                if api == "send":
+                    chan.send(b"x" * 10)
+                elif api == "exec_command":
+                    chan.exec_command("x")
+                elif api == "global_request":
+                    tc.global_request("x@y", wait=True)
+                res["r"] = "returned"
+            except BaseException as e:  # noqa
+                res["r"] = "raised:" + type(e).__name__
+
+        th = threading.Thread(target=runner, daemon=True)
+        th.start()
+        lib_net.wait_until(lambda: "r" in res, 0.3)
+        tc.close()
+        th.join(T)
+        return ("blocked" if th.is_alive() else res.get("r", "returned")), (not tc.is_active())
+    finally:
+        for t in (tc, ts):
+            try:
+                if t is not None:
+                    t.close()
+            except Exception:
+                pass
+
+
 PROXY_CHILD = r'''
 import sys, time, threading, os
 sys.path.insert(0, sys.argv[1])
@@ -282,6 +326,12 @@ def run(ctx):
     ctx.assume("wake-up latency of threading primitives and OS process/pipe signalling are outside the model",
                "a call that has not returned T seconds after the loss is classified as blocked (T = 4 s quick, "
                "10 s thorough; poll period in the code is 0.1 s)")
+    from pv import lib_lockdisc
+
+    table, lock_sites = lib_lockdisc.lean_table(REPO)
+    ctx.write_generated("C13", table)
+    ctx.extra["lock_sites"] = len(lock_sites)
+    ctx.extra["lock_sites_unsafe"] = [x for x in lock_sites if not x["safe"]]
     ctx.build()
     T = 10.0 if ctx.thorough else 4.0
     reps = 3 if ctx.thorough else 1
@@ -383,6 +433,20 @@ def run(ctx):
                      {"api": a, "callers": n, "loss": l}, "%d of %d callers returned: %s" % (got, n, detail))
     if len(ctx.samples) < 8:
         ctx.sample({"multi_caller_cases": len(mjobs)})
+
+    # ---- a re-exchange whose KEXINIT cannot be written, then calls through the send gate, then close()
+    for api in ("send", "exec_command", "global_request"):
+        try:
+            out, inactive = failed_kexinit_scenario(api, T)
+        except Exception as e:
+            ctx.dist("failed-kexinit:inconclusive")
+            continue
+        ctx.case(("failed-kexinit", api), True)
+        ctx.dist("failed-kexinit:" + out.split(":")[0])
+        if out == "blocked":
+            ctx.fail("blocked:%s:after-failed-kexinit-write" % api,
+                     {"api": api, "scenario": "socket dead for writing; renegotiate_keys() fails; call; close()"},
+                     "still blocked %.1fs after Transport.close()" % T)
 
     # ---- ProxyCommand at EOF (model: proxyRecv fixed) vs real child processes
     pm = ctx.driver("C13", ["proxy fixed 10 0 3 4", "proxy fixed 10 0 - 2"])
